@@ -66,3 +66,13 @@ claim("C11", "proof",
       "bit-vector abstract interpretation instantiated per option + spec diff", "DESIGN.md §4 C11")
 for _p in ["C02", "C03", "C05", "C10", "C11"]:
     NA.pop(_p, None)
+claim("C09", "other",
+      "Name-collision rule over all 43 classes x 652 controller/option names against the 46 attribute names type-independent code touches on a module object; census of every controller_values store (5 sites) and the set → propagate → set_initial chain; on the CFG of set_initial every path to the store passes validation or the strict-mode raise; Range.validate rejects exactly v < min or v > max; 502 controller defaults/bounds equal the YAML (spec diff); constructor overrides of controllers chased to constants and compared with the spec default; numbering from 1 in definition order.",
+      "trusted: data-descriptor precedence in Python attribute assignment; sa/cfg.py; the spec diff of C13",
+      "name-set disjointness + who-may-write census + CFG gate analysis + spec diff", "DESIGN.md §4 C09")
+claim("C20", "other",
+      "Structural clauses only: tuple arity from every construction site to the Mapping constructor's destructuring; on the CFG of macro() both refusals dominate the creation of the module, the bound equals MappingArray.length, and the link statement (MultiCtl as source) is on every non-raising path; in on_value_changed the controller look-up and the target write are dominated by a non-zero test of mapping.controller. The numeric clause (range containment and monotonicity of convert_value over five run-time parameters in float arithmetic) is declined, not enumerated.",
+      "trusted: sa/cfg.py dominators; tuple-unpacking semantics",
+      "tuple-arity flow + CFG dominance", "DESIGN.md §4 C20")
+for _p in ["C09", "C20"]:
+    NA.pop(_p, None)
